@@ -76,7 +76,7 @@ def register(reg):
                  ('size', 'result >= 0'),
                  ('counter-only-grows', 'self.comp_flush_count >= old(self.comp_flush_count)'),
                  ('logged', 'self.g_done == snoc(old(self.g_done), beu_dec(prefix))'),
-                 ('state-key-never-queued', 'implies(nostate0, ' + NOSTATE + ')')],
+                 ('state-key-never-queued', 'implies(' + NOSTATE.replace('keys_to_delete', 'old(keys_to_delete)').replace('write_items', 'old(write_items)') + ', ' + NOSTATE + ')')],
         loops={0: LoopSpec(
             'for key, hist in self.db.iterator(prefix=prefix)',
             invariants=[
